@@ -26,6 +26,7 @@ R1(c) functions that discard the text (yypop_buffer_state, yy_flush_buffer, yyre
 R4   after yy_get_next_buffer() every arm of yylex / yyinput that does not mean end-of-file re-positions yy_c_buf_p or calls
      yyrestart() before the function returns or recurses.
 R5   yymore: every pointer local the matcher derives from yytext_ptr adds yy_more_len.
+R6   yymore: every comparison of a length measured from yytext_ptr (yy_c_buf_p - yytext_ptr ...) accounts for yy_more_len.
 R2   push-back is bounded: in yyunput the store of the pushed-back character is dominated by the low-water test
      `yy_cp < yy_ch_buf + 2`; the below edge of the test shifts the text and reaches the store only through a second
      test whose below edge is fatal.
@@ -372,13 +373,52 @@ def r5(ctx, sc, lex):
                     rep.fail('C08.R5', key, where(st), '%s derives the local %s from yytext_ptr without adding yy_more_len (YY_MORE_ADJ): after yymore() the run would start inside the kept text [variant %s]' % (nm, L, v.name), variant=v.describe())
     return n
 
+# ---------------------------------------------------------------- R6
+
+def r6(ctx, sc, lex):
+    """yymore (pointer yytext): a length measured from yytext_ptr includes the text kept by yymore().  Wherever such a
+    length (a pointer difference against yytext_ptr) is compared - "did we match only the end-of-buffer character?" in
+    yy_get_next_buffer - the compared quantity accounts for yy_more_len: the value slice of the comparison that contains
+    loads of both a scan pointer and yytext_ptr also contains a load of yy_more_len.  (Differences that are only stored -
+    number_to_move, yyleng, the offset of yyinput, yy_more_len itself - deliberately keep the prefix.)"""
+    rep = ctx.rep; v = sc.v; n = 0
+    if not sc.fa(lex).cell_loads('MORELEN'):
+        c03.vac(rep, v, 'C08.R6: the scanner has no yy_more_len (no yymore(), or %array where yy_more_offset is used)')
+        return 0
+    for fn in sc.mod.functions.values():
+        a = None
+        for x in fn.ins:
+            if x.op != 'icmp' or x.ty is None or x.ty.k != 'int': continue
+            sl = flow.value_slice(fn, x.ops[0]) + flow.value_slice(fn, x.ops[1])
+            if not any(d.op == 'ptrtoint' for d in sl): continue
+            if a is None: a = sc.fa(fn)
+            roles = set()
+            for d in sl:
+                if d.op != 'load': continue
+                l = a.loc(d.ops[0])
+                if l[0] == 'local': roles.add('PTR' if l[1] in a.locals else None)
+                else: roles.add(cell_role(l))
+            if 'TEXT' not in roles or not ({'CBUFP', 'PTR'} & roles): continue
+            n += 1
+            key = 'C08.R6:%s:%s:length-from-yytext_ptr-compared' % (skel(v), norm(fn.name))
+            if 'MORELEN' in roles:
+                rep.ok('C08.R6', '%s %s: comparison@%s of a length measured from yytext_ptr accounts for yy_more_len' % (v.name, norm(fn.name), x.line))
+            else:
+                rep.fail('C08.R6', key, where(x), '%s compares a length measured from yytext_ptr (line %s) without accounting for yy_more_len (YY_MORE_ADJ): with yymore() pending the kept text is counted as part of the current run [variant %s]' % (norm(fn.name), x.line, v.name),
+                         variant=v.describe(), replay_input='%option emit="c99" (pointer yytext), input from yy_scan_string, yymore() pending on the last token: yylex never reaches <<EOF>>')
+    if n == 0:
+        rep.fail('C08.R6', 'C08.R6:%s:yy_get_next_buffer:length-from-yytext_ptr-compared:missing' % skel(v), fwhere(sc.fn('GNB')),
+                 'no comparison of yy_c_buf_p - yytext_ptr found although the scanner uses yy_more_len (the single-EOB-character test of yy_get_next_buffer) [variant %s]' % v.name, variant=v.describe())
+        n = 1
+    return n
+
 # ---------------------------------------------------------------- driver
 
 def run(ctx):
     rep = ctx.rep
     vs = [v for v in ctx.variants() if c03.usable(v)]
     rep.require(len(vs) >= 60, 'only %d scanner variants compiled to IR' % len(vs))
-    tot = {'R1a': 0, 'R1b': 0, 'R1c': 0, 'R2': 0, 'R4': 0, 'R5': 0}
+    tot = {'R1a': 0, 'R1b': 0, 'R1c': 0, 'R2': 0, 'R4': 0, 'R5': 0, 'R6': 0}
     backends = set()
     for v in vs:
         sc = Scanner(v)
@@ -390,6 +430,7 @@ def run(ctx):
         tot['R1c'] += r1c(ctx, sc)
         tot['R4'] += r4(ctx, sc, lex)
         tot['R5'] += r5(ctx, sc, lex)
+        tot['R6'] += r6(ctx, sc, lex)
         k = r2(ctx, sc)
         if k == 0: c03.vac(rep, v, 'C08.R2: no yyunput in this variant (noyyunput)')
         tot['R2'] += k
@@ -403,7 +444,8 @@ def run(ctx):
     rep.require(tot['R4'] >= 3 * len(vs), 'C08.R4 matched %d instances, 2 arms in yylex + 2 in yyinput per variant expected' % tot['R4'])
     rep.require(tot['R5'] >= 4 * (len(vs) // 3), 'C08.R5 matched %d instances, 4 per yymore variant expected' % tot['R5'])
     rep.floor('C08.R1', 1, 'see instances_R1a/R1b/R1c'); rep.floor('C08.R2', 1, 'see instances_R2')
-    rep.floor('C08.R4', 1, 'see instances_R4'); rep.floor('C08.R5', 1, 'see instances_R5')
+    rep.require(tot['R6'] * 4 >= tot['R5'], 'C08.R6 matched %d instances, one per yymore variant expected (R5 has 4 per yymore variant: %d)' % (tot['R6'], tot['R5']))
+    rep.floor('C08.R4', 1, 'see instances_R4'); rep.floor('C08.R5', 1, 'see instances_R5'); rep.floor('C08.R6', 1, 'see instances_R6')
     rep.undecided += ['yymore length arithmetic (yy_more_len / yy_more_offset) and "consumed exactly once"',
                       'the state after the user\'s yywrap() and on the end-of-file arm of yy_get_next_buffer (a path-insensitive join cannot see it)',
                       'the second expansion of yyless (section-3 code of the cpp skeleton): only instantiated when user code in section 3 calls yyless',
